@@ -90,7 +90,7 @@ theorem emit_ok (e : Em) (k : LineKind) (d : List Nat) (i l f : String) (dg : Da
   | some e2 =>
     rcases write_some e e2 _ hw with ⟨hn, _⟩ | ⟨c', _, _, rfl⟩
     · rw [hc] at hn; simp at hn
-    · simp only
+    · simp only [emitTail]
       cases dg <;> simp only [emitBase] <;> (repeat' split) <;> simp
 
 /-- **Len() and PC() advance by exactly the instruction length** when the call is accepted (emitter with a buffer). -/
